@@ -34,4 +34,5 @@ def run(rep, fb, tier):
     _l3.rule_index_form_arms(rep, fb)
     __import__("vf.rules.pyrules", fromlist=["x"]).rule_py_dead_attr(rep)
     __import__("vf.rules.binding2", fromlist=["x"]).rule_binding_call_roles(rep, fb)
+    __import__("vf.rules.binding2", fromlist=["x"]).rule_cstr_loses_length(rep, fb)
     rep.units = fb.units
